@@ -210,8 +210,7 @@ func TestLegacyRoundTrip(t *testing.T) {
 				b := Batch{Magic: magic, Codec: codec, PartitionLeaderEpoch: -1, ProducerID: -1, ProducerEpoch: -1, BaseSequence: -1}
 				b.LogAppendTime = magic == 1 && rng.Intn(3) == 0
 				b.RelativeInner = magic == 1 && codec != 0 && rng.Intn(2) == 0
-				// relative inner offsets cannot carry holes
-				b.Records = genRecords(rng, magic, base, n, !b.RelativeInner && rng.Intn(2) == 0)
+				b.Records = genRecords(rng, magic, base, n, rng.Intn(2) == 0)
 				what := fmt.Sprintf("magic=%d codec=%d it=%d rel=%v", magic, codec, it, b.RelativeInner)
 				enc, lens, err := EncodeBatch(b, EncodeOpts{SnappyRaw: rng.Intn(2) == 0})
 				if err != nil {
@@ -528,10 +527,10 @@ func TestLegacyWrapperOffsets(t *testing.T) {
 		if err != nil {
 			t.Fatal(err)
 		}
-		// relative inner offsets cannot represent the hole: 0,1,2 -> 103,104,105
+		// relative inner offsets are 0,1,5: the hole survives
 		want := []int64{100, 101, 105}
-		if rel {
-			want = []int64{103, 104, 105}
+		if inner := innerOffsets(t, enc); rel != (inner[0] == 0 && inner[1] == 1 && inner[2] == 5) || !rel != (inner[0] == 100 && inner[2] == 105) {
+			t.Errorf("rel=%v: inner offsets %v", rel, inner)
 		}
 		for i, r := range got[0].Records {
 			if r.Offset != want[i] {
@@ -542,4 +541,23 @@ func TestLegacyWrapperOffsets(t *testing.T) {
 			t.Errorf("rel=%v: %+v", rel, got[0])
 		}
 	}
+}
+
+// innerOffsets returns the raw offsets of the inner messages of a wrapper.
+func innerOffsets(t *testing.T, wrapper []byte) []int64 {
+	t.Helper()
+	m, err := decodeLegacyMsg(wrapper, true)
+	if err != nil {
+		t.Fatal(err)
+	}
+	inner, err := decompressData(m.attrs&attrCodecMask, m.value)
+	if err != nil {
+		t.Fatal(err)
+	}
+	var out []int64
+	for off := 0; off < len(inner); {
+		out = append(out, int64(binary.BigEndian.Uint64(inner[off:])))
+		off += 12 + int(binary.BigEndian.Uint32(inner[off+8:]))
+	}
+	return out
 }
